@@ -24,7 +24,7 @@ func Spec() *evid.Spec {
 		ID:    "C17",
 		Level: "exploration",
 		Rule: "lane timer (under the race detector): the real RoundTimer with a fake beacon network (slot 30-90 ms) and allowances scaled to milliseconds through the verif setter; per case one role, 2-9 armings with strictly increasing rounds " +
-			"placed well before / just before / just after / long after the previous deadline, optional cancellation, 1-3 timers in parallel; arm calls and callbacks are logged on one monotonic clock. Oracle: <=1 callback per arming, never a callback for an unarmed round, " +
+			"placed well before / just before / just after / long after the previous deadline or back to back, optional cancellation, 1-3 timers in parallel; arm calls and callbacks are logged on one monotonic clock. Oracle: <=1 callback per arming, never a callback for an unarmed round, " +
 			"callback time >= the role's deadline (slot start + base + cumulative allowance; proposer: arm time + allowance), no callback for round r if a higher round's arm call returned before r's deadline. " +
 			"lane controller: on states reached by adversarial prefixes, timeout events for lower rounds, other heights, duplicates, and for a decided instance must leave State.GetRoot(), round, broadcasts and timer arms unchanged. " +
 			"Non-trivial = timer case with at least one re-arm before expiry and one observed callback / controller case with a stale event on an instance past round 1 or decided; distinct = (role, spacing pattern) / (state class, event class)",
@@ -92,7 +92,7 @@ type scenario struct {
 	Slow    time.Duration
 	Height  specqbft.Height
 	Rounds  []specqbft.Round
-	Spacing []int // per arming after the first: 0 well before previous deadline, 1 just before, 2 just after, 3 long after
+	Spacing []int // per arming after the first: 0 well before previous deadline, 1 just before, 2 just after, 3 long after, 4 back to back
 	Cancel  int   // -1 no cancel; else cancel after arming index
 	Scale   int   // wait multiplier for the final "must fire" wait
 }
@@ -141,8 +141,10 @@ func play(s *scenario) (*timerRun, []finding, bool) {
 				target = prevDeadline - 300*time.Microsecond
 			case 2:
 				target = prevDeadline + 300*time.Microsecond
-			default:
+			case 3:
 				target = prevDeadline + 3*s.Quick
+			default:
+				target = 0 // back to back: re-arm immediately, without a scheduling point in between
 			}
 			if d := target - run.now(); d > 0 {
 				time.Sleep(d)
@@ -239,7 +241,7 @@ func genScenario(c *evid.Case) *scenario {
 	r := specqbft.Round(1)
 	for i := 0; i < n; i++ {
 		s.Rounds = append(s.Rounds, r)
-		s.Spacing = append(s.Spacing, rng.Intn(4))
+		s.Spacing = append(s.Spacing, rng.Intn(5))
 		r += specqbft.Round(1 + rng.Intn(10)/8) // mostly consecutive, sometimes a jump
 	}
 	if rng.Intn(6) == 0 {
@@ -269,7 +271,7 @@ func runTimer(c *evid.Case) {
 	wg.Wait()
 	rearm, cbs := false, 0
 	for i := 1; i < len(s.Spacing); i++ {
-		if s.Spacing[i] <= 1 {
+		if s.Spacing[i] <= 1 || s.Spacing[i] == 4 {
 			rearm = true
 		}
 	}
